@@ -106,7 +106,12 @@ func (b *exampleBuilder) buildObjectKey(k ischema.ObjectNodeKey) ([]byte, error)
 	if err != nil {
 		return nil, err
 	}
-	return stdBytes.Trim(ex, `"`), nil
+	// Only the enclosing quotes go: Trim would also eat the quote of an escaped
+	// quote at the end of the string ("ab\"" gave the key ab\ and broken JSON).
+	if len(ex) >= 2 && ex[0] == '"' && ex[len(ex)-1] == '"' {
+		ex = ex[1 : len(ex)-1]
+	}
+	return ex, nil
 }
 
 // hasUserTypeReference reports whether the types listed for the node (rules `type`
